@@ -1,7 +1,7 @@
 """Property id -> check function; replay of a recorded violation."""
 import json
 
-from . import eprops, framework as fw, record, c18, c17, optim, c10
+from . import eprops, framework as fw, record, c18, c17, optim, c10, classprops
 
 CHECKS = {}
 for _p in ("C01", "C02", "C03", "C04", "C08", "C09", "C11", "C12"):
@@ -12,6 +12,9 @@ CHECKS["C05"] = optim.check_c05
 CHECKS["C06"] = optim.check_c06
 CHECKS["C07"] = optim.check_c07
 CHECKS["C10"] = c10.check
+CHECKS["C13"] = classprops.check_c13
+CHECKS["C14"] = classprops.check_c14
+CHECKS["C19"] = classprops.check_c19
 CHECKS["C09"] = c10.check_c09
 
 
